@@ -24,6 +24,13 @@ def run(chk):
     prog = zc.program("A")
     chk.rule("T-TRACE", "set of bus traces of emulate specialised to one encoding == documented M-cycle sequence(s)")
     chk.rule("T-VARIANT", "the branch that selects a timing variant decides the documented predicate")
+    traces(chk, prog)
+    interrupt_totals(chk, prog)
+    return chk.finish(EXPL, extra={"exhaustive": True})
+
+
+def traces(chk, prog):
+    """the per-encoding bus-trace rule (also run by C04: what the ULA delays is the address and the length of every cycle)"""
     bad = oz.self_check()
     chk.check(not bad, "oracle/self-check", "timing oracle disagrees with its own documented totals: %r" % (bad,))
     n_enc = 0
@@ -91,8 +98,6 @@ def run(chk):
     chk.count("paths", n_paths)
     chk.count("variants", n_variants)
     chk.floor("encodings", 1792 - 10)
-    interrupt_totals(chk, prog)
-    return chk.finish(EXPL, extra={"exhaustive": True})
 
 
 def interrupt_totals(chk, prog):
